@@ -343,8 +343,27 @@ func runC03(c *RuleCtx) {
 				}
 				for _, el := range cl.Elts {
 					if kv, ok := el.(*ast.KeyValueExpr); ok {
-						if id, ok := kv.Key.(*ast.Ident); ok && id.Name == "Message" && p.R(f).Val(kv.Value).Equal(mv) {
-							okSame = true
+						if id, ok := kv.Key.(*ast.Ident); ok && id.Name == "Message" {
+							if p.R(f).Val(kv.Value).Equal(mv) {
+								okSame = true
+							} else {
+								// through local copies (the result of a constructor helper): every non-nil value that can reach
+								// the wrapped field is the signed object
+								all, some := true, false
+								for _, ch := range p.R(f).Sources(kv.Value) {
+									if ch.Zero || (ch.Leaf != nil && ch.Leaf.IsConst("nil")) {
+										continue
+									}
+									if ch.Leaf != nil && ch.Leaf.Equal(mv) {
+										some = true
+									} else {
+										all = false
+									}
+								}
+								if all && some {
+									okSame = true
+								}
+							}
 						}
 					}
 				}
